@@ -375,6 +375,13 @@ func c19Histories() []c19History {
 			os.Remove(filepath.Join(s.dir, "base/policies/current"))
 		}},
 		{"p1-uptodate", func(s *sbx) { firstRun(s) }},
+		// Policy numbers at a change of the number of digits: the run
+		// under test builds p10.
+		{"p9-then-good", func(s *sbx) {
+			s.commit(false, map[string]string{"POLICY": "# p8\n"})
+			firstRun(s)
+			s.commit(false, nil)
+		}},
 		{"failed-then-good", func(s *sbx) {
 			firstRun(s)
 			s.commit(true, nil)
@@ -677,13 +684,13 @@ func checkC19(tier, replay string) int {
 	defer env.Cleanup()
 	env.BuildRepo(false)
 	rep := ev.New(env, "fault_enumeration")
-	rep.Rule = "Commit histories {fresh, p1+good, p1+bad, p1+good+bad, p1+bad+bad, p1+POLICY-file edit, lost link, up to date, failed-then-good} x " +
+	rep.Rule = "Commit histories {fresh, p1+good, p1+bad, p1+good+bad, p1+bad+bad, p1+POLICY-file edit, lost link, up to date, p9+good (number of digits changes), failed-then-good} x " +
 		"kill point = every simple command of newpolicy.sh (DEBUG trap step k of the reference run of that history), " +
 		"a sample of second kills, SIGKILL of the script while parked inside `git clone` / the compiler (orphan keeps the lock), " +
 		"and 1..3 contenders started while the holder is parked in the compiler. After each event the monitor checks: current absent or complete+compiling, " +
 		"numbers increasing, compiler runs not interleaved; then one undisturbed run must make the newest compiling revision current. " +
 		"Non-trivial = the fault was delivered (script killed at the step / child parked and parent killed / contenders ran while holder parked). " +
-		"thorough = every step of every history; quick = every 3rd step (seed-shifted) of three histories plus all child kills and concurrent schedules."
+		"thorough = every step of every history; quick = a 1-in-3 hash sample of the steps of three histories, every step of the p9 history, plus all child kills and concurrent schedules."
 	rep.Assumptions = []string{
 		"netspoc compiler and mail are stubs; sudo branch of sudo-newpolicy not taken (systemuser unset)",
 		"kills land on simple-command boundaries and inside the two long-running children; half-executed single commands are not produced",
@@ -737,8 +744,11 @@ func checkC19(tier, replay string) int {
 	for _, t := range tmpls {
 		stepCount[t.h.Name] = len(t.steps)
 		for k := 1; k <= len(t.steps); k++ {
-			if tier == "quick" {
-				if !quickHists[t.h.Name] || (k+int(env.Seed))%3 != 0 {
+			if tier == "quick" && t.h.Name != "p9-then-good" {
+				// Hash sample (a stride could alias with the structure
+				// of the script); the digit-boundary history runs at
+				// every step.
+				if !quickHists[t.h.Name] || sampleHash(fmt.Sprintf("%s/%d", t.h.Name, k), env.Seed)%3 != 0 {
 					continue
 				}
 			}
